@@ -41,6 +41,7 @@ fn key_bytes() -> BoxedStrategy<Vec<u8>> {
         6 => 0usize..=70,
         2 => proptest::sample::select(vec![15usize, 16, 17, 31, 32, 33, 47, 48, 49, 63, 64, 65, 255, 256]),
         1 => Just(65535usize),
+        1 => Just(0usize),
     ];
     len.prop_flat_map(|n| {
         prop_oneof![
@@ -223,6 +224,7 @@ fn stmt_oracle(c: &StmtCase) -> Verdict {
         .class_if(!identity, "permuted")
         .class_if(tail_high, "tail_high_byte")
         .class_if(c.cdc, "cdc")
+        .class_if(comps.len() > 1 && comps.iter().any(|b| b.is_empty()), "empty_component")
         .class_if(want.is_none(), "oversize_component"))
 }
 
